@@ -152,6 +152,7 @@ package mempool
 
 // Re-verification of the pool after a new block: the list is filtered in place, the fee
 // and conflict indexes are rebuilt from the items that stay.
+//@ prop C08,C06
 //@ func (*Pool).loadPolicy
 //@ requires mp != nil && feer != nil
 //@ modifies mp.feePerByte
@@ -161,6 +162,7 @@ package mempool
 //@ requires mp != nil && tx != nil
 //@ ensures[policy] result == (!policyChanged || tx.NetworkFee / transaction.txSize(tx) >= mp.feePerByte)
 
+//@ prop C08
 //@ spec conflictsListed(mp *Pool, tx *transaction.Transaction) bool = forall(k, 0, len(tx.Attributes), tx.Attributes[k].Type == transaction.ConflictsT ==> has(mp.conflicts, tx.Attributes[k].Value.(*transaction.Conflicts).Hash))
 //@ func (*Pool).RemoveStale
 //@ opt callbacks pure
